@@ -290,11 +290,15 @@ class _Ctx:
         self.cli = cli
         self.CliRunner = CliRunner
 
-    def write(self, path, records, bare=False):
+    def write(self, path, records, bare=False, ulp=False):
         """records: list of (rate, [trial types]) -> one result file written by the real writer."""
         np = self.np
         batch = self.BatchSimulation(path, verbose=False)
         for rate, types in records:
+            if ulp:
+                # the same requested rate as another float path produces it (np.linspace / arange give
+                # 0.30000000000000004 for 0.3): one unit in the last place away, still the same point
+                rate = float(np.nextafter(rate, 1.0))
             sim = self.DirectSimulation(self.code, self.em, self.dec, rate, verbose=False)
             for t in types:
                 ee, cs, ok = _type(t, self.k)
@@ -370,7 +374,7 @@ def _build(ctx, d, files, kinds, order):
         sub = d if kind in ('json', 'gz') else os.path.join(d, 'tmp')
         os.makedirs(sub, exist_ok=True)
         path = os.path.join(sub, 'f%d%s' % (i, ext))
-        ctx.write(path, files[i], bare=(len(files[i]) == 1 and (i + len(files)) % 2 == 0))
+        ctx.write(path, files[i], bare=(len(files[i]) == 1 and (i + len(files)) % 2 == 0), ulp=(i % 2 == 1))
         if kind == 'zip':
             zipped.append((pos, path))
         elif kind == 'merged':
